@@ -444,6 +444,34 @@ func (fc *fnCtx) allowRepresentation(sc *specCtx, model string, obj Val, allowed
 		}
 	}
 	walk(ts.Models[model].E)
+	// the object owns what its fields hold: its own fields, the Go maps and the
+	// objects they refer to at entry may be written (ownership: never shared)
+	if stt, ok := named.Underlying().(*types.Struct); ok {
+		for i := 0; i < stt.NumFields(); i++ {
+			f := stt.Field(i)
+			if fc.e.immutableFn(named, f.Name()) != "" {
+				continue
+			}
+			rn := fieldRegion(named.Origin(), f.Name())
+			allowed[rn] = append(allowed[rn], obj.T)
+			fs := sortOfType(f.Type())
+			if fs != SU {
+				continue
+			}
+			cur := fc.regionIn(sc.st, sc.heap, rn, regionArraySort(fs))
+			held := sel(cur, obj.T)
+			switch f.Type().Underlying().(type) {
+			case *types.Map:
+				for _, r := range []string{"map.dom", "map.get", "map.card"} {
+					allowed[r] = append(allowed[r], held)
+				}
+			case *types.Interface, *types.Pointer:
+				for m := range fc.e.contracts.Models {
+					allowed["M."+m] = append(allowed["M."+m], held)
+				}
+			}
+		}
+	}
 }
 
 // user axioms ----------------------------------------------------------------
